@@ -242,3 +242,73 @@ func TestVP_C38_Traffic(t *testing.T) {
 		st.Case(strings.Join(hist, "; "), crossed)
 	})
 }
+
+// TestVP_C38_Reconnects: the link between two peer.Managers is re-established several times,
+// in either direction (A dials B, the link is dropped, B dials A, ...). On every connection
+// both ends allocate; the oracle applies to each connection on its own: the end that dialled
+// it allocates odd identifiers from 1, the end that accepted it even ones from 2.
+func TestVP_C38_Reconnects(t *testing.T) {
+	st := vp.NewStats("C38", "reconnects", "two peer.Managers; 2-6 successive connections between them, each dialled by a generated end, with 1-12 allocations per end on each; per connection: dialler odd from 1, acceptor even from 2, no duplicates; non-trivial = the dialling end changed at least once")
+	defer st.Flush()
+	rapid.Check(t, func(t *rapid.T) {
+		n := mem.NewNet()
+		ctx, cancel := context.WithCancel(context.Background())
+		defer cancel()
+		var ids [2]identity.AgentID
+		ids[0][0], ids[1][0] = 0xA1, 0xB2
+		names := [2]string{"A", "B"}
+		var mgrs [2]*peer.Manager
+		for e := 0; e < 2; e++ {
+			cfg := peer.DefaultManagerConfig(ids[e], n.Transport(names[e]))
+			cfg.KeepaliveInterval = time.Hour
+			cfg.ReconnectConfig.InitialDelay = time.Hour
+			mgrs[e] = peer.NewManager(cfg)
+			defer mgrs[e].Close()
+			m := mgrs[e]
+			n.Listen(names[e], func(pc transport.PeerConn) { m.Accept(ctx, pc) })
+		}
+		rounds := rapid.IntRange(2, 6).Draw(t, "connections")
+		flipped := false
+		last := -1
+		var hist []string
+		for r := 0; r < rounds; r++ {
+			d := rapid.IntRange(0, 1).Draw(t, fmt.Sprintf("dialler%d", r))
+			if last >= 0 && d != last {
+				flipped = true
+			}
+			last = d
+			if _, err := mgrs[d].ConnectWithTransport(ctx, n.Transport(names[d]), names[1-d]); err != nil {
+				t.Fatalf("harness: connect: %v", err)
+			}
+			var conns [2]*peer.Connection
+			for i := 0; i < 40000 && (conns[0] == nil || conns[1] == nil); i++ {
+				conns[0], conns[1] = mgrs[0].GetPeer(ids[1]), mgrs[1].GetPeer(ids[0])
+				time.Sleep(50 * time.Microsecond)
+			}
+			if conns[0] == nil || conns[1] == nil {
+				t.Fatalf("harness: link not registered on both ends")
+			}
+			var got [2][]uint64 // index 0 = dialling end
+			ka, kb := rapid.IntRange(1, 12).Draw(t, fmt.Sprintf("ka%d", r)), rapid.IntRange(1, 12).Draw(t, fmt.Sprintf("kb%d", r))
+			for i := 0; i < ka; i++ {
+				got[0] = append(got[0], conns[d].NextStreamID())
+			}
+			for i := 0; i < kb; i++ {
+				got[1] = append(got[1], conns[1-d].NextStreamID())
+			}
+			hist = append(hist, fmt.Sprintf("conn%d(dialled by %s): dialler %v acceptor %v", r, names[d], got[0], got[1]))
+			if err := vpC38Verify(got); err != nil {
+				t.Fatalf("VPFAIL C38 %v (end 0 = the end that dialled this connection)\n  history: %s", err, strings.Join(hist, "; "))
+			}
+			// drop the link from a generated end and wait until both sides forgot it
+			mgrs[rapid.IntRange(0, 1).Draw(t, fmt.Sprintf("dropper%d", r))].Disconnect(ids[0])
+			mgrs[0].Disconnect(ids[1])
+			mgrs[1].Disconnect(ids[0])
+			for i := 0; i < 40000 && (mgrs[0].GetPeer(ids[1]) != nil || mgrs[1].GetPeer(ids[0]) != nil); i++ {
+				time.Sleep(50 * time.Microsecond)
+			}
+			time.Sleep(300 * time.Microsecond)
+		}
+		st.Case(strings.Join(hist, "; "), flipped)
+	})
+}
